@@ -15,15 +15,25 @@ pub fn check(c: &c11::InitCase, info: &mut CaseInfo) -> Result<(), String> {
     cfg.transport = *t;
     let w = new_world(&cfg);
     w.borrow_mut().latch_on = true;
+    // the D/C line may idle at any level before init (e.g. left high by an earlier session)
+    let dc0 = match (cfg.w as u32 + cfg.oy as u32 + cfg.orient.index() as u32) % 3 {
+        0 => None,
+        1 => Some(true),
+        _ => Some(false),
+    };
+    w.borrow_mut().dc = dc0;
     let d = build(&cfg, &w).map_err(|e| format!("init failed: {:?}", e))?;
     let trace = w.borrow_mut().panel.take_trace();
-    c11::judge_reset(&w.borrow(), &cfg, &trace)?;
+    if let Some(e) = w.borrow().decode_errors.first() {
+        return Err(format!("bus decode error during init (D/C initially {:?}): {}", dc0, e));
+    }
+    c11::judge_reset(&w.borrow(), &cfg, &trace).map_err(|e| format!("{} (D/C initially {:?})", e, dc0))?;
     if t.pin_level() && !cfg.reset_pin {
         // at pin level: the first *latched word* is the software-reset instruction
         let wb = w.borrow();
         match wb.latch_log.first() {
             Some((false, 0x01)) => {}
-            other => return Err(format!("first word latched by the controller is {:?}, expected the software-reset instruction (D/C low, 0x01)", other)),
+            other => return Err(format!("first word latched by the controller is {:?}, expected the software-reset instruction (D/C low, 0x01); D/C initially {:?}", other, dc0)),
         }
     }
     // all model-specific commands come after the reset: with a pin nothing precedes the pulse,
